@@ -65,6 +65,7 @@ var fnSpecs = []fnSpec{
 	{"save/region", "", "In", nil},
 	{"save/region", "", "At", nil},
 	{"save/region", "", "sectorLoc", nil},
+	{"save/region", "Region", "WriteSector", []string{"need"}},
 	{"nbt", "", "isSpace", nil},
 	{"nbt", "", "isNumber", nil},
 	{"nbt", "", "isAllowedInUnquotedString", nil},
@@ -388,6 +389,9 @@ func (t *trans) expr(e ast.Expr) string {
 		if id, ok := x.Fun.(*ast.Ident); ok && id.Name == "len" && len(x.Args) == 1 {
 			if a := t.arrName(x.Args[0]); a != "" {
 				return t.freeVar(a + "_len")
+			}
+			if a, ok := x.Args[0].(*ast.Ident); ok && t.localsOK {
+				return t.freeVar(a.Name + "_len") // local-expression mode: the length of a slice is a parameter
 			}
 		}
 		if c, _ := t.callKnown(x); c != "" {
